@@ -157,6 +157,10 @@ func (h *H) Do(line string) {
 	case "def":
 		id := int(atoi(strings.TrimPrefix(f[1], "t")))
 		rec := h.Reg.Define(id, ParseTxP(kv(f[2:])))
+		if rec == nil {
+			h.emit(line, "bad-op")
+			return
+		}
 		h.noteShash(rec)
 		h.emit(rec.DefLine(), "ok")
 	case "defg":
